@@ -105,12 +105,15 @@ struct Case {
     auto: bool,
     nack: Option<(usize, u8)>,
     label: &'static str,
+    /// an earlier call made with the SAME `Sign` object on the same bus (operation, pages, failing attempts); its
+    /// trace is checked too, and nothing of it may leak into the trace of the call under test
+    prior: Option<(Op, Vec<(u32, u32, Vec<u8>)>, usize)>,
 }
 
 impl Case {
     fn sig(&self) -> String {
         format!(
-            "{}|{}|{:04X}|{}|fail{}|nack{:?}|{}|{}",
+            "{}|{}|{:04X}|{}|fail{}|nack{:?}|{}|{}|{}",
             self.op.name(),
             TYPES[self.ty].name,
             self.own,
@@ -118,7 +121,11 @@ impl Case {
             self.fail_attempts,
             self.nack,
             if self.virtual_sign { "vsign" } else { "canned" },
-            self.label
+            self.label,
+            match &self.prior {
+                None => String::new(),
+                Some((op, pages, fail)) => format!("after {}:{}:fail{}", op.name(), pages.iter().map(|(w, h, b)| format!("{}x{}:{:016x}", w, h, fnv(b))).collect::<Vec<_>>().join(","), fail),
+            }
         )
     }
 }
@@ -246,12 +253,35 @@ fn run_case(c: &Case, rep: &mut Report) {
         log: vec![],
     }));
     let sign = ctl::mk_sign(tb.clone(), c.own, c.ty);
+    let mut prior_bad = vec![];
+    if let Some((pop, ppages, pfail)) = &c.prior {
+        tb.borrow_mut().fail_attempts = *pfail;
+        let saved_nack = tb.borrow_mut().nack.take();
+        let pp: Vec<Page<'static>> = ppages.iter().map(|(w, h, b)| ctl::page_from_image(*w, *h, b.clone())).collect();
+        let pout = ctl::run_op(&sign, pop, &pp);
+        let plog = std::mem::take(&mut tb.borrow_mut().log);
+        let (xop, items): (usize, Vec<Vec<u8>>) = if *pop == Op::Configure { (O_RECV_CFG, vec![BLOCKS[c.ty].to_vec()]) } else { (O_RECV_PIX, ppages.iter().map(|p| p.2.clone()).collect()) };
+        prior_bad = check_trace(&plog, c.own, xop, &items, rep);
+        rep.count("earlier_calls_on_the_same_sign_object");
+        rep.count(if pout.is_ok() { "earlier_calls_succeeded" } else { "earlier_calls_gave_up" });
+        // the canned responder starts afresh for the call under test
+        let mut b = tb.borrow_mut();
+        b.fail_attempts = c.fail_attempts;
+        b.nack = saved_nack;
+        b.in_transfer = None;
+        b.attempt_failed = false;
+        b.attempts_seen = 0;
+        b.swallowed_this_attempt = false;
+    }
     let pages: Vec<Page<'static>> = c.pages.iter().map(|(w, h, b)| ctl::page_from_image(*w, *h, b.clone())).collect();
     let out = ctl::run_op(&sign, &c.op, &pages);
     drop(sign);
     let log = std::mem::take(&mut tb.borrow_mut().log);
     let (xop, items): (usize, Vec<Vec<u8>>) = if c.op == Op::Configure { (O_RECV_CFG, vec![BLOCKS[c.ty].to_vec()]) } else { (O_RECV_PIX, c.pages.iter().map(|p| p.2.clone()).collect()) };
     let mut bad = check_trace(&log, c.own, xop, &items, rep);
+    for (class, what) in prior_bad {
+        bad.push((class, format!("in the earlier call on the same Sign object: {}", what)));
+    }
     if c.op == Op::Configure {
         let lib_block = TYPES[c.ty].ty.to_bytes();
         if lib_block != &BLOCKS[c.ty][..] {
@@ -342,7 +372,17 @@ fn random_case(rng: &mut Rng, big_ok: bool) -> Case {
             label = "random_foreign_sizes";
         }
     }
+    let prior = if rng.chance(1, 3) {
+        let pconf = rng.chance(1, 3);
+        let n = rng.usize(3);
+        // often the very same pages again (a controller that remembers what it sent must still send it)
+        let ppages = if pconf { vec![] } else if rng.bool() && !pages.is_empty() { pages.clone() } else { (0..n).map(|_| (TYPES[ty].w, TYPES[ty].h, rand_image(rng, TYPES[ty].w, TYPES[ty].h))).collect() };
+        Some((if pconf { Op::Configure } else { Op::SendPages }, ppages, *rng.pick(&[0usize, 0, 1, 3])))
+    } else {
+        None
+    };
     Case {
+        prior,
         ty,
         own,
         op: if configure { Op::Configure } else { Op::SendPages },
@@ -365,10 +405,10 @@ pub fn run(ctx: &Ctx) -> Outcome {
         for own in [0u16, 3, 0x80, 0xFFFF] {
             for fail in 0..=3 {
                 for vs in [false, true] {
-                    fixed.push(Case { ty, own, op: Op::Configure, pages: vec![], fail_attempts: fail, virtual_sign: vs, auto: false, nack: None, label: "configure_all_types" });
+                    fixed.push(Case { ty, own, op: Op::Configure, pages: vec![], fail_attempts: fail, virtual_sign: vs, auto: false, nack: None, prior: None, label: "configure_all_types" });
                     let np = (ty + fail) % 4;
                     let pages = (0..np).map(|_| (TYPES[ty].w, TYPES[ty].h, rand_image(&mut rng, TYPES[ty].w, TYPES[ty].h))).collect();
-                    fixed.push(Case { ty, own, op: Op::SendPages, pages, fail_attempts: fail, virtual_sign: vs, auto: own % 2 == 0, nack: None, label: "send_pages_all_types" });
+                    fixed.push(Case { ty, own, op: Op::SendPages, pages, fail_attempts: fail, virtual_sign: vs, auto: own % 2 == 0, nack: None, prior: None, label: "send_pages_all_types" });
                 }
             }
         }
@@ -379,9 +419,32 @@ pub fn run(ctx: &Ctx) -> Outcome {
         for k in 1..=3usize {
             for kind in 0..4u8 {
                 for vs in [false, true] {
-                    fixed.push(Case { ty, own: 3, op: Op::Configure, pages: vec![], fail_attempts: 3, virtual_sign: vs, auto: false, nack: Some((k, kind)), label: "request_not_acknowledged" });
+                    fixed.push(Case { ty, own: 3, op: Op::Configure, pages: vec![], fail_attempts: 3, virtual_sign: vs, auto: false, nack: Some((k, kind)), prior: None, label: "request_not_acknowledged" });
                     let pages = (0..2).map(|_| (TYPES[ty].w, TYPES[ty].h, rand_image(&mut rng, TYPES[ty].w, TYPES[ty].h))).collect();
-                    fixed.push(Case { ty, own: 3, op: Op::SendPages, pages, fail_attempts: 3, virtual_sign: vs, auto: vs, nack: Some((k, kind)), label: "request_not_acknowledged" });
+                    fixed.push(Case { ty, own: 3, op: Op::SendPages, pages, fail_attempts: 3, virtual_sign: vs, auto: vs, nack: Some((k, kind)), prior: None, label: "request_not_acknowledged" });
+                }
+            }
+        }
+    }
+    // the same Sign object used twice: the second call's trace must be a complete transfer of ITS items
+    for ty in 0..TYPES.len() {
+        for vs in [false, true] {
+            let img = |rng: &mut Rng| (TYPES[ty].w, TYPES[ty].h, rand_image(rng, TYPES[ty].w, TYPES[ty].h));
+            let a = img(&mut rng);
+            let b = img(&mut rng);
+            let d = img(&mut rng);
+            let priors: Vec<(Op, Vec<(u32, u32, Vec<u8>)>, usize)> = vec![
+                (Op::Configure, vec![], 0),
+                (Op::Configure, vec![], 3),
+                (Op::SendPages, vec![a.clone()], 0),
+                (Op::SendPages, vec![a.clone(), b.clone()], 0),
+                (Op::SendPages, vec![a.clone(), b.clone()], 1),
+                (Op::SendPages, vec![a.clone()], 3),
+                (Op::SendPages, vec![], 0),
+            ];
+            for prior in priors {
+                for (op, pages, fail) in [(Op::SendPages, vec![a.clone()], 0usize), (Op::SendPages, vec![d.clone(), a.clone()], 1), (Op::SendPages, vec![], 0), (Op::Configure, vec![], 0), (Op::Configure, vec![], 2)] {
+                    fixed.push(Case { ty, own: 3, op, pages, fail_attempts: fail, virtual_sign: vs, auto: false, nack: None, prior: Some(prior.clone()), label: "same_sign_object_used_twice" });
                 }
             }
         }
@@ -389,8 +452,8 @@ pub fn run(ctx: &Ctx) -> Outcome {
     // the 16-bit offset limit: a 65 536-byte page (last offset 0xFFF0), alone and followed by a small page
     for fail in [0usize, 1] {
         let big = (65_532u32, 8u32, rand_image(&mut rng, 65_532, 8));
-        fixed.push(Case { ty: 5, own: 3, op: Op::SendPages, pages: vec![big.clone()], fail_attempts: fail, virtual_sign: false, auto: false, nack: None, label: "page_of_65536_bytes" });
-        fixed.push(Case { ty: 5, own: 3, op: Op::SendPages, pages: vec![big, (30, 7, rand_image(&mut rng, 30, 7))], fail_attempts: 0, virtual_sign: true, auto: false, nack: None, label: "page_of_65536_bytes" });
+        fixed.push(Case { ty: 5, own: 3, op: Op::SendPages, pages: vec![big.clone()], fail_attempts: fail, virtual_sign: false, auto: false, nack: None, prior: None, label: "page_of_65536_bytes" });
+        fixed.push(Case { ty: 5, own: 3, op: Op::SendPages, pages: vec![big, (30, 7, rand_image(&mut rng, 30, 7))], fail_attempts: 0, virtual_sign: true, auto: false, nack: None, prior: None, label: "page_of_65536_bytes" });
     }
     let nf = fixed.len();
     let report = run_sharded(ctx, nf + rand_shards, |shard, rep| {
@@ -412,12 +475,13 @@ pub fn run(ctx: &Ctx) -> Outcome {
         floor("a 65536-byte page (last offset 0xFFF0)", report.get("pages_of_65536_bytes") >= 3 && report.maxs.get("largest_chunk_offset").copied().unwrap_or(0.0) >= 65_520.0, report.get("pages_of_65536_bytes")),
         floor("pages of a size other than the sign's own", report.get("foreign_size_pages") > 0, report.get("foreign_size_pages")),
         floor("unacknowledged requests on attempts 1, 2 and 3", report.get("cases/request_not_acknowledged") == 144 && report.get("unacknowledged_requests_seen") >= 144, report.get("unacknowledged_requests_seen")),
+        floor("calls on a Sign object that has been used before (earlier call succeeded / gave up)", report.get("cases/same_sign_object_used_twice") == 770 && report.get("earlier_calls_succeeded") > 0 && report.get("earlier_calls_gave_up") > 0, report.get("earlier_calls_on_the_same_sign_object")),
         floor("both succeeding and giving-up calls", report.get("calls_succeeded") > 0 && report.get("calls_gave_up") > 0, report.get("calls_gave_up")),
     ];
     Outcome {
         report,
         level: "exploration",
-        rule: "every sign type x 4 addresses x 0..3 really failing attempts (one chunk swallowed per failing attempt) x {canned responder, real virtual sign} for configure and send_pages (0..3 pages), a 65536-byte page alone and in a list, plus seeded random page lists (0..4 pages; own size, other real sizes, 16-byte pages, one-chunk-and-a-bit sizes, 4096-byte pages; arbitrary contents); the recorded (message, reply) log of every call is checked by the trace automaton; distinct by (operation, type, address, page hashes, failures, sign side); all non-trivial".into(),
+        rule: "every sign type x 4 addresses x 0..3 really failing attempts (one chunk swallowed per failing attempt) x {canned responder, real virtual sign} for configure and send_pages (0..3 pages), a 65536-byte page alone and in a list, plus seeded random page lists (0..4 pages; own size, other real sizes, 16-byte pages, one-chunk-and-a-bit sizes, 4096-byte pages; arbitrary contents); the same for calls made with a Sign object that has already performed another call (7 earlier calls x 5 calls x types x sign sides, and a third of the random cases; often the very same pages again); the recorded (message, reply) log of every call is checked by the trace automaton; distinct by (operation, type, address, page hashes, failures, sign side); all non-trivial".into(),
         exhaustive: false,
         floors,
         assumptions: vec![
